@@ -271,6 +271,7 @@ type run struct {
 	holdPct, holdsLeft int
 	held               *heldExpiry
 	holdBudget         int
+	launching          bool  // the executor is on its way to the runner; the timeout does not count yet
 	slack              int64 // unsuspended time that passed between due and delivery, summed
 	lastDueRan         int64 // unsuspended run time at the due instant of the expiry delivered last
 	lastDueAt          int
@@ -300,7 +301,7 @@ type execState struct {
 	cleanup  func()
 	// launch starts another Execute call (timeout in units) on the same
 	// executor and clock and waits until its runner is entered.
-	launch func(timeout int) bool
+	launch func(timeout int, park bool) bool
 }
 
 // relevantCreated counts the base timers created for the objects under test.
@@ -433,7 +434,7 @@ func (x *run) ran() int64 { return x.U - x.startU }
 // checkNotMissed is evaluated before the clock leaves the current instant,
 // when every base timer due now has fired and has been handled.
 func (x *run) checkNotMissed() {
-	if !x.created || x.finished || x.stopped || x.held != nil {
+	if !x.created || x.finished || x.stopped || x.held != nil || x.launching {
 		return
 	}
 	if x.isDone() {
@@ -1110,7 +1111,7 @@ func (x *run) secondAction() {
 		return
 	}
 	before := x.relevantCreated()
-	if !x.exec.launch(P) {
+	if !x.exec.launch(P, false) {
 		return
 	}
 	ctx := x.ctx
@@ -1186,7 +1187,7 @@ func (x *run) startExecutor() bool {
 	}}
 	executor := builder.NewLocalBuildExecutor(store, creator, runner, x.sc, uploadDelay, nil, 1<<20, nil, false)
 	launches := 0
-	es.launch = func(timeout int) bool {
+	es.launch = func(timeout int, park bool) bool {
 		launches++
 		es.finish = make(chan struct{})
 		es.returned = false
@@ -1199,30 +1200,75 @@ func (x *run) startExecutor() bool {
 		request := &remoteworker.DesiredState_Executing{ActionDigest: store.PutProto(action).GetProto(), Action: action}
 		parent, pc := context.WithCancel(context.Background())
 		x.parentCancel = pc
-		updates := make(chan *remoteworker.CurrentState_Executing, 10)
-		go func() {
-			for range updates {
-			}
-		}()
+		// The consumer of the execution state updates is gated by the
+		// driver: Execute stays parked in each send until the driver, after
+		// having advanced the base clock, receives the update. Time spent
+		// parked there is neither run time nor a storage stall.
+		var updates chan *remoteworker.CurrentState_Executing
+		if (x.c.Idx+launches)%2 == 0 {
+			updates = make(chan *remoteworker.CurrentState_Executing)
+		} else {
+			updates = make(chan *remoteworker.CurrentState_Executing, 1)
+			updates <- &remoteworker.CurrentState_Executing{} // already full
+		}
+		drain := func() {
+			go func() {
+				for range updates {
+				}
+			}()
+		}
 		go func() {
 			resp := executor.Execute(parent, nil, nil, wexec.DigestFunction, request, updates)
 			close(updates)
 			es.response <- resp
 		}()
-		select {
-		case x.ctx = <-es.entered:
-			return true
-		case resp := <-es.response:
-			es.returned = true
-			x.violation("executor-did-not-reach-runner", fmt.Sprintf("Execute returned %v before running the command", resp.GetStatus()))
-			x.finished = true
-			return false
-		case <-time.After(40 * time.Second):
-			x.inconcl = "executor did not reach the runner"
-			return false
+		x.launching = true
+		defer func() { x.launching = false }()
+		for received := 0; ; received++ {
+			if park && received < 2 {
+				// Execute cannot get past its second send (Running) before
+				// the second receive below, whether the channel is
+				// unbuffered or was full: up to here the command is not
+				// running yet. Give Execute the chance to reach its next
+				// send, then let the clock move while it is parked there.
+				rel := x.relevantCreated()
+				for y := 0; y < 300 && x.relevantCreated() == rel && len(es.entered) == 0; y++ {
+					runtime.Gosched()
+				}
+				if len(es.entered) == 0 {
+					d := []int{0, 1 + x.tie.IntN(3), timeout + 2}[x.tie.IntN(3)]
+					x.advanceTo(x.nowU + d)
+					if d > 0 {
+						x.situation([]string{"state-update-parked-while-clock-advances:fetching-inputs", "state-update-parked-while-clock-advances:running"}[received])
+						x.logf("clock advanced %d units while state update #%d was not received", d, received+1)
+					}
+				}
+			}
+			select {
+			case <-updates:
+				continue
+			case x.ctx = <-es.entered:
+				// The timeout counts from here: the command starts to run.
+				x.startAt, x.startU = x.nowU, x.U
+				if now := x.clk.Now(); !now.Equal(x.at(x.nowU)) {
+					x.inconcl = "harness: base clock moved behind the driver's back"
+				}
+				drain()
+				return true
+			case resp := <-es.response:
+				es.returned = true
+				x.violation("executor-did-not-reach-runner", fmt.Sprintf("Execute returned %v before running the command", resp.GetStatus()))
+				x.finished = true
+				drain()
+				return false
+			case <-time.After(40 * time.Second):
+				x.inconcl = "executor did not reach the runner"
+				drain()
+				return false
+			}
 		}
 	}
-	return es.launch(x.c.Timeout)
+	return es.launch(x.c.Timeout, true)
 }
 
 func (x *run) finishExecutor(cause string) {
